@@ -5,6 +5,9 @@ HERE = os.path.dirname(os.path.dirname(os.path.abspath(__file__)))
 ALL = ["C%02d" % i for i in range(1, 21)]
 HYD_NOTE = "Trusted: TLC; Dec.tla exact decimal arithmetic (self-tested by setup); recorded floats are logged at their shortest round-trip decimal; tolerances derived from the solver criterion max|residual| < 1e-6 with factor 2; non-converged runs are counted, not asserted."
 CLAIMED = {
+ "C16": dict(cat="fault_enumeration", tech="environment action SolveFails in WntrSim.tla (TLC: invariant FailStop, liveness Terminates under weak fairness); enumeration of a failing solve at every index against the real run_sim, each outcome judged by TLC (FailStop.tla)",
+   text="The specification treats the nonlinear solve as environment and adds the action SolveFails; TLC checks for every failure index that the loop stops there with the fault-free prefix reported and that every behaviour terminates. Against the code, for time-family schedules and random networks, every call index k at the solver boundary is made to fail (convergence_error False/True, with/without backup solver) plus natural failures (MAXITER too small, trial limit); TLC checks per run: termination, RuntimeError iff convergence_error, otherwise warning + error_code, strictly increasing index on the report grid, one column per element, finite values, nothing at or after the failed step and the rows before it equal to the clean run.",
+   note="Failures are injected by wrapping wntr.sim.core._solver_helper from the harness (no source hook). Termination is observed under a 120 s alarm per run.", ref="DESIGN.md section 5 C16"),
  "C11": dict(cat="model_checking", tech="TLC structural comparison of canonicalised model dictionaries across run/reset cycles (Same.tla), TLC comparison of result tables of reruns and copies (Agree.tla), action property DefinitionUnchanged on WntrSim.tla",
    text="For random feature-rich models with controls that change statuses, valve settings and pump statuses, leaks, level limits and PDD, the canonical to_dict() is recorded before and after every WNTRSimulator run, every reset_initial_values() and an EpanetSimulator run; TLC checks structural equality with the initial dictionary, and that run k equals run 1 and a deepcopy's run equals the original's (1e-9). On the algorithmic model TLC checks that no action of run_sim writes the scenario definition.",
    note="Trusted: TLC. The definition is what to_dict() contains; floats compared by repr.", ref="DESIGN.md section 5 C11"),
